@@ -358,7 +358,26 @@ def r12_9(ctx) -> None:
     ctx.count("R12.9", n, 10, "call sites between functions that both take `private`")
 
 
+def r12_11(ctx) -> None:
+    """what a key exports is serialised from its native key / filtered JWK view: the text or dict it was imported from
+    (`original_value`) is never read outside the constructor - an imported file may hold more than the key that was loaded from it"""
+    eng = ctx.eng
+    n = 0
+    for fn in eng.prog.all_functions():
+        for node in fn_nodes(fn):
+            if isinstance(node, ast.Attribute) and node.attr == "original_value" and isinstance(node.ctx, ast.Load):
+                n += 1
+                ctx.fail("R12.11", fn, node, f"{fn.short} reads `original_value` (the imported text / dict): an export or accessor could echo material that was never filtered",
+                         construct=f"original_value read in {fn.short}")
+    ctx.ok("R12.11", "reads of original_value", f"{n} read(s) of the imported value outside BaseKey.__init__'s own parameter")
+
+
 def run(ctx) -> None:
+    ctx.guard(r12_11)
+    # a key's JWK view holds only its own material: no method of a key class writes into an object shared with other keys / the caller
+    from .c20 import r20_1, key_class_functions
+    from ..effects import Effects
+    ctx.guard_as("R12.10", r20_1, Effects(ctx.eng.prog, ctx.eng.cg), key_class_functions(ctx.eng))
     ctx.guard(r12_9)
     ctx.guard(r12_1)
     ctx.guard(r12_2)
